@@ -223,13 +223,15 @@ def build(tier):
                                       obligation="the dense shift-solve wrappers turn a non-Successful factorization status into invalid_argument"))
     from props import kernels
     groups += kernels.bkldlt_groups(tier, report)
+    from props import bk2x2
+    groups += bk2x2.lemmas(report)
     meta = {"level": "proof", "trusted_base": ["cbmc 6.11.0 dfcc", "cadical", "extractor"],
             "assumptions": ["permutate_mat's contract stubbed in bk.compute (incl. its precondition: position k still holds the identity record) is PROVED for every n on the packed-cursor model "
                             "(bkldlt.pivoting.unbounded: pointers into the packed storage are (column, offset) pairs, values not modelled) and re-checked with real pointer arithmetic at concrete n (bkldlt.kernels.*, BOUNDED); "
                             "gaussian_elimination_1x1 / _2x2: index safety proved for every n on the packed-cursor model (bkldlt.ge*.unbounded); the exact-singularity decision (NumericalIssue <=> pivot block exactly singular) needs values and is "
                             "checked on the real bodies only as a BOUNDED stand-in (bkldlt.ge*.n<N>); copy_data: provenance (which entry, conjugated or not, written once, shifted once) proved for every n on the packed-cursor model "
                             "(bkldlt.copy_data.unbounded.*), re-checked bit-exactly with real pointer arithmetic and an uninterpreted conj at concrete n (bkldlt.copy_data.n<N>.*, BOUNDED)",
-                            "in the bounded elimination kernels mapped-vector updates lose their values (extent checked against the addressed column) and solve_left_2x2 is not under contract; "
+                            "in the bounded elimination kernels mapped-vector updates lose their values (extent checked against the addressed column); the VALUES of solve_inplace_2x2 / solve_left_2x2 are decided separately as algebraic identities over the complex field (bkldlt.solve_*_2x2.*: z3, real closed field, machine arithmetic treated as mathematical, divisors assumed non-zero); "
                             "the two products of the 2x2 determinant test are an uninterpreted function on both sides; conj() in copy_data is an uninterpreted function (generic scalar), real()/conj() are the identity in the other kernels (real instantiation)",
                             "packed storage is seen through m_colptr[j] as column segments of length n - j (layout by compute_pointer is a bounded check)",
                             "floating-point values are not modelled: NumericalIssue may be reported at any pivot (nondeterministic `== 0` tests)",
